@@ -5,7 +5,8 @@
      1 reg    : [1; which(0 tunnel,1 control); max; ops; refused; keys]      ops = [0;id;created] | [1;id]
      2 mapseq : [2; variant; max; ops; counts; outcomes]                      ops = [0] open | [1;k] close k-th arrival
      3 quota  : [3; variant; max; pre; n; sched; counts; outcomes]            see quota_check
-     4 qfault : [4; policy; max; nrecs; trace; outcomes]                      see qfault_check *)
+     4 qfault : [4; policy; max; nrecs; trace; outcomes]                      see qfault_check
+     5 regsched : [5; max; ops; final keys]                                   see regsched_check *)
 From TX Require Import Base.Val Model.Limits.
 From Coq Require Import ZArith.
 
@@ -81,20 +82,24 @@ Definition reg_check (v : tval) : bool :=
   r_replay (if vbool (vnth 1 v) then creg_apply max else treg_apply max) []
            (vl (vnth 3 v)) (vl (vnth 4 v)) (vl (vnth 5 v)).
 
-(* ---- client mapping, whole-connection histories *)
-Definition m_setting_up (pc : mpc) : bool := match pc with MStart | MLoaded _ | MActive => true | _ => false end.
+(* ---- client mapping, whole-connection histories
+   ops: [0] open (carried through to a running tunnel, or refused), [1;k] the k-th arrival's connection ends,
+        [2] open whose tunnel is closed by its peer between RegisterTunnel and Start (or refused) *)
+Definition m_setting_up (pc : mpc) : bool :=
+  match pc with MStart _ | MLoaded _ _ | MActive _ | MEarlyClosed => true | _ => false end.
 Definition m_outcome (pc : mpc) : N := match pc with MLive => 1 | MRefused => 2 | MDone => 3 | _ => 0 end%N.
+Definition op_kind (o : tval) : N := vn (vnth 0 o).
 Fixpoint m_replay v max (s : msh * list mpc) (next : nat) (ops counts : list tval) : bool * (msh * list mpc) :=
   match ops, counts with
   | [], [] => (true, s)
   | o :: os, c :: cs =>
       let '(s', next') :=
-        if vbool (vnth 0 o)
+        if N.eqb (op_kind o) 1
         then (match thread_at s (vnat (vnth 1 o)) with
               | Some MLive => sys_step _ _ (mstep v max) s (vnat (vnth 1 o))
               | _ => s
               end, next)
-        else (step_while (mstep v max) m_setting_up 6 s next, S next) in
+        else (step_while (mstep v max) m_setting_up 8 s next, S next) in
       if pair_ok (Z.to_N (counter (fst s'))) (Z.to_N (live (fst s'))) c
          && (0 <=? counter (fst s'))%Z && (0 <=? live (fst s'))%Z
       then m_replay v max s' next' os cs else (false, s')
@@ -102,9 +107,17 @@ Fixpoint m_replay v max (s : msh * list mpc) (next : nat) (ops counts : list tva
   end.
 Definition mapseq_check (v : tval) : bool :=
   let ops := vl (vnth 3 v) in
-  let n := length (filter (fun o => negb (vbool (vnth 0 o))) ops) in
-  let '(ok, s) := m_replay (dec_variant (vnth 1 v)) (vnat (vnth 2 v)) ({| counter := 0; live := 0 |}, repeat MStart n) 0 ops (vl (vnth 4 v)) in
+  let arrivals := map (fun o => MStart (N.eqb (op_kind o) 2)) (filter (fun o => negb (N.eqb (op_kind o) 1)) ops) in
+  let '(ok, s) := m_replay (dec_variant (vnth 1 v)) (vnat (vnth 2 v)) ({| counter := 0; live := 0 |}, arrivals) 0 ops (vl (vnth 4 v)) in
   ok && all2 (fun pc o => N.eqb (m_outcome pc) (vn o)) (snd s) (vl (vnth 5 v)).
+
+(* ---- k concurrent Registers of new connections on a FULL control registry whose evicted streams park in Close():
+   [5; max; ops (pre-fill, then the new registrations); final keys] — the registry mutex linearises the calls and, for
+   k <= max, the final key set does not depend on the order *)
+Definition regsched_check (v : tval) : bool :=
+  let max := vnat (vnth 1 v) in
+  let '(_, m) := rseq (creg_apply max) (map dec_rop (vl (vnth 2 v))) [] in
+  keyset_eq m (vl (vnth 3 v)).
 
 (* ---- storage-level quotas: macro schedules of callers parked by the gated store.
    Pinned tree: one macro step = one model step (count, create).
@@ -190,6 +203,7 @@ Definition check (v : tval) : bool :=
   | 2 => mapseq_check v
   | 3 => quota_check v
   | 4 => qfault_check v
+  | 5 => regsched_check v
   | _ => false
   end%N.
 
